@@ -1018,7 +1018,7 @@ impl Machine {
                 #[cfg(not(feature = "std"))]
                 out.s("unsupported");
             }
-            (b"ckpt", 2) | (b"finish", 2) | (b"flush", 2) | (b"drop", 2) | (b"debug", 2) => {
+            (b"ckpt", 2) | (b"finish", 2) | (b"flush", 2) | (b"drop", 2) | (b"debug", 2) | (b"debugx", 2) => {
                 let h = handle!(1);
                 let Some(s) = &mut self.hs[h] else {
                     out.s("nohandle");
@@ -1048,7 +1048,14 @@ impl Machine {
                     }
                     _ => {
                         let mut fb: FixedBuf<4096> = FixedBuf::new();
-                        let _ = each!(s, x => write!(fb, "{:?}", x));
+                        if op == b"debugx" {
+                            // alternate / hex / padded forms of Debug (into the same caller-supplied sink)
+                            let _ = each!(s, x => write!(fb, "{:x?}|{:10?}|", x, x));
+                            fb.len = 0;
+                            let _ = each!(s, x => write!(fb, "{:#?}", x));
+                        } else {
+                            let _ = each!(s, x => write!(fb, "{:?}", x));
+                        }
                         let code = backend_code(s);
                         if code == 9 {
                             // HighwayHasher { tag: N, hasher: ... }
